@@ -65,7 +65,11 @@ def _rmul(self, other):
     return _orig_rmul(self, other)
 
 
+REQS = {}  # (task, reported resource) -> how the requirement was declared (filled by declare)
+
+
 def declare(P, variant, calendar):
+    REQS.clear()
     kw = {}
     if calendar in ("delta", "both"):
         kw["delta_time"] = dt.timedelta(hours=36)
@@ -85,6 +89,8 @@ def declare(P, variant, calendar):
         b.obj.add_required_resource(ps.SelectWorkers(list_of_workers=[w1, w2], nb_workers_to_select=1))
         c.obj.add_required_resource(w2)
         ws = {"W1": [w1], "W2": [w2]}
+        REQS.clear()
+        REQS.update({("A", "W1"): ("shifted", P.v("din"), P.v("eout")), ("B", "W1"): ("span",), ("B", "W2"): ("span",), ("Z", "W2"): ("span",)})
     elif variant == "cumulative":
         cw = ps.CumulativeWorker(name="CW", size=2)
         w3 = ps.Worker(name="W3")
@@ -92,6 +98,8 @@ def declare(P, variant, calendar):
         b.obj.add_required_resource(cw)
         b.obj.add_required_resource(w3, dynamic=True)
         ws = {"CW": list(cw._cumulative_workers), "W3": [w3]}
+        REQS.clear()
+        REQS.update({("A", "CW"): ("span",), ("B", "CW"): ("span",), ("B", "W3"): ("inside",)})
     elif variant == "buffer_indicator":
         w1 = ps.Worker(name="W1")
         a.obj.add_required_resource(w1)
@@ -100,6 +108,8 @@ def declare(P, variant, calendar):
         ps.TaskLoadBuffer(task=c.obj, buffer=buf, quantity=P.int("q2", ph=1))
         ps.IndicatorResourceUtilization(resource=w1) if False else ps.IndicatorNumberTasksAssigned(resource=w1)
         ws = {"W1": [w1]}
+        REQS.clear()
+        REQS.update({("A", "W1"): ("span",)})
     return pb, tis, ws
 
 
@@ -241,6 +251,19 @@ def ob_assignments(ctx, path):
                 queries += 1
                 if r:
                     return r
+                how = REQS.get((ti.name, rname))
+                if how:
+                    sz, ez = formula.to_z3(s), formula.to_z3(e)
+                    if how[0] == "span":
+                        implied = And(sz == ti.s, ez == ti.e)
+                    elif how[0] == "shifted":
+                        implied = And(sz == ti.s + how[1], ez == ti.e - how[2])
+                    else:
+                        implied = And(sz >= ti.s, ez <= ti.e, sz <= ez)
+                    r = _valid(ctx, path, implied, f"assignment ({n}, {s}, {e}) on {rname} is not the interval the requirement implies ({how[0]})")
+                    queries += 1
+                    if r:
+                        return r
     return {"status": "unsat", "queries": queries}
 
 
@@ -448,6 +471,14 @@ def replay_solution(desc):
                         exp_e.append((ti.name, bs, be))
             if sorted(set(exp_e)) != sorted(entries) or (bool(exp_e) != (rname in ts.assigned_resources)):
                 problems.append(f"{ti.name} on {rname}: reported {entries} / listed {rname in ts.assigned_resources}, model implies {exp_e}")
+            how = REQS.get((ti.name, rname))
+            for (n_, s_, e_) in entries:
+                if how and how[0] == "span" and (s_, e_) != (s, e):
+                    problems.append(f"{ti.name} on {rname}: assignment [{s_},{e_}] is not the task span [{s},{e}]")
+                if how and how[0] == "shifted" and (s_, e_) != (s + how[1], e - how[2]):
+                    problems.append(f"{ti.name} on {rname}: assignment [{s_},{e_}] is not [start+delay_in, end-early_out] = [{s + how[1]},{e - how[2]}]")
+                if how and how[0] == "inside" and not (s <= s_ <= e_ <= e):
+                    problems.append(f"{ti.name} on {rname}: dynamic assignment [{s_},{e_}] not inside the task span [{s},{e}]")
         if sched and sol.horizon < ts.end:
             problems.append("horizon earlier than a task end")
     print("replay:", problems[:3])
